@@ -48,6 +48,33 @@ def ops(rng, tier, floats_only=False):
         out += ['dextra UnitMiss 7 #D=Err("missing")/Err("missing")', 'dextra UnitMiss 24 #D=Err("missing")/Err("missing")']
         for n_ in (0, 1, 127, 128, 129, 130, 255, 256, 257, 300, 1000):
             out.append(f"dextra Reuse {n_} #D=7,3fc00000,4004000000000000")
+        # field names a macro may use for its own locals, in a struct, an array- and a map-encoded struct-like variant
+        vals = [0, 1, 23, 24, 255, 256, 65535, 65536, 2**32 - 1, 2**32, 2**64 - 1]
+        for k in range(len(vals) + 3):
+            a = [str(vals[(k + 3 * j) % len(vals)]) for j in range(12)]
+            if k % 3 == 0: a[2] = "N"
+            for t in ("NamesE", "NamesM", "NamesS"):
+                out.append(f"dextra {t} " + " ".join(a))
+        for t in ("NamesE", "NamesM", "NamesS"):           # one field large, the others small: a length taken from the wrong variable shows
+            for j in range(12):
+                a = ["0"] * 12; a[j] = str(2**40 + j)
+                out.append(f"dextra {t} " + " ".join(a))
+        # structs without an encoded field: a struct-level tag is written and demanded; readers without fields skip what a writer with fields wrote
+        out += ["dextra TagUnit #X=d903e980", "dextra TagEmptyM #X=c7a0", "dextra TagSkip #X=da0001117080",
+                "dextra TagRead d903e980 #D=ok/err/err", "dextra TagRead c7a0 #D=err/ok/err", "dextra TagRead da0001117080 #D=err/err/ok"]
+        for bad in ("80", "a0", "d903ea80", "d903e8a0", "c780", "c880", "c680", "da0001117180", "d9117080", "c1d903e980", "d903e9d903e980", "f6", "9fff", "bfff"):
+            out.append(f"dextra TagRead {bad} #D=err/err/err")
+        for doc, exp in (("80", "ok:1/err:type/ok:1"), ("a0", "err:type/ok:1/err:type"), ("8101", "ok:2/err:type/ok:2"), ("820102", "ok:3/err:type/ok:3"),
+                         ("83f6f6f6", "ok:4/err:type/ok:4"), ("9fff", "ok:2/err:type/ok:2"), ("9f01ff", "ok:3/err:type/ok:3"), ("8182810203", "ok:5/err:type/ok:5"),
+                         ("a10001", "err:type/ok:3/err:type"), ("a200010161" + "61", "err:type/ok:6/err:type"), ("bfff", "err:type/ok:2/err:type"),
+                         ("bf0001ff", "err:type/ok:4/err:type"), ("a1008101", "err:type/ok:4/err:type")):
+            out.append(f"dextra EmptyRead {doc} #D={exp}")
+        # #[b(..)] and #[n(..)] on a borrowed slice: the same bytes (an array of numbers; bytes need the bytes codec)
+        for data in (b"", b"\x01", b"\x01\x02\x03", bytes(range(24)), bytes([255]) * 30):
+            for more in (None, b"", b"\x18\xff"):
+                arr = lambda b: gen.head(4, len(b)) + b"".join(gen.head(0, x) for x in b)
+                exp = (b"\x83\x07" if more is not None else b"\x82\x07") + arr(data) + (arr(more) if more is not None else b"")
+                out.append(f"dextra BSlice 7 {gen.hexb(data)} {'N' if more is None else gen.hexb(more)} #X={exp.hex()} #D={exp.hex()}")
         for t_ in ("-", "61", "616263", "c3a9e282ac", "78" * 24):
             out.append(f"dextra CowS {t_} 7")
         # a three-state type whose nil value (K) is not what its decoder makes of `null` (C): a written `null` belongs to the type's decoder
@@ -76,12 +103,12 @@ def judge(op, impl, model, spec):
     iw = impl.split(" ")
     if len(iw) != 4 or not iw[1].startswith("len=") or not iw[2].startswith("dec=") or not iw[3].startswith("pos="):
         return "violation"
-    dd = [a[3:] for a in op.split(" ") if a.startswith("#D=")]
-    if dd:
-        return "ok" if iw[2][4:] == dd[0] else "violation"
     x = [a[3:] for a in op.split(" ") if a.startswith("#X=")]
     if x and iw[0] != x[0]:
         return "violation"
+    dd = [a[3:] for a in op.split(" ") if a.startswith("#D=")]
+    if dd:
+        return "ok" if iw[2][4:] == dd[0] else "violation"
     nbytes = 0 if iw[0] == "-" else len(iw[0]) // 2
     want = ",".join(w[2:]) if w[1] not in ("CowA", "CowS") else f"{w[2]},{w[3]}"
     if iw[2][4:] != want or int(iw[3][4:]) != nbytes or int(iw[1][4:]) != nbytes:
